@@ -80,6 +80,11 @@ def vocabulary():
     add("yield-into-first", P(g.for_yield([g.cl_it(g.lv_id("aa"), g.lst([L(4), L(5), L(6)]))], g.seq([P(I("aa")), I("aa")]), "first")), [])
     add("yield-break-partial", P(g.for_yield([g.cl_it(g.lv_id("aa"), g.lst([L(4), L(5), L(6)]))],
                                               g.seq([g.if_(g.binop("==", I("aa"), L(6)), g.brk(0)), I("aa")]))), [])
+    add("yield-break-outer", g.seq([g.for_do([g.cl_it(g.lv_id("aa"), g.lst([L(1), L(2)]))],
+                                             g.seq([g.asg(T("rr"), g.for_yield([g.cl_it(g.lv_id("bb"), g.lst([L(4), L(5), L(6)]))],
+                                                                               g.seq([g.if_(g.binop("==", I("bb"), L(5)), g.brk(1)), I("bb")]))),
+                                                    P(I("rr"))])),
+                                    P(L("after"))]), ["rr"])
     add("yield-kv", g.asg(T("rr"), g.for_yieldkv([g.cl_item(g.lv_tuple([g.lv_id("kk"), g.lv_id("vv")]), g.lst([L(7), L(8), L(7)]))], I("vv"), I("kk"))), ["rr"])
     add("while-scope", g.seq([g.decl("yy", L(2)), g.while_(g.binop(">", I("yy"), L(0)),
                                                            g.seq([g.asg(T("yy"), g.binop("-", I("yy"), L(1))), g.decl("tt", I("yy")), P(I("tt"))]))]), ["yy"])
